@@ -9,6 +9,8 @@ package c02
 
 import (
 	"fmt"
+
+	"github.com/hashicorp/raft"
 	"strings"
 	"testing"
 
@@ -95,6 +97,9 @@ func TestZZVerifC02(t *testing.T) {
 		if h%3 == 1 {
 			w = gen.CatalogWeights()
 		}
+		if h%5 == 4 {
+			w = gen.IntentionWeights()
+		}
 		g := gen.New(hr, w)
 		a := fsmkit.New(fsmkit.Opts{})
 		var log []entry
@@ -102,6 +107,9 @@ func TestZZVerifC02(t *testing.T) {
 		var prelude []gen.Cmd
 		if h%3 != 0 {
 			prelude = gen.VIPPrelude()
+		}
+		if h%5 == 4 {
+			prelude = gen.IntentionPrelude()
 		}
 		for i := 0; i < ln; i++ {
 			idx += 1 + uint64(hr.Intn(2))
@@ -119,9 +127,44 @@ func TestZZVerifC02(t *testing.T) {
 		// cut points
 		off := hr.Intn(every)
 		live := fsmkit.New(fsmkit.Opts{}) // replays the log step by step; snapshot source
+		// deferred persist: raft takes the snapshot handle at the cut but writes it out while later
+		// commands are already being applied; the persisted bytes must still be the state AT the cut
+		type deferred struct {
+			snap   raft.FSMSnapshot
+			before *dump.Dump
+			k      int
+		}
+		var pend *deferred
 		for k := 0; k <= ln; k++ {
 			if k > 0 {
 				live.ApplyBytes(log[k-1].Idx, log[k-1].bytes)
+			}
+			if pend != nil && pend.before != nil && (k == pend.k+4 || k == ln) {
+				b, err := fsmkit.PersistHandle(pend.snap)
+				if err != nil {
+					run.Violation("C02:deferred-persist:error", fmt.Sprintf("history %d: persisting the snapshot taken at cut %d after %d further commands failed: %v", h, pend.k, k-pend.k, err), map[string]any{"log": descs(log[:k])})
+				} else {
+					rr := fsmkit.New(fsmkit.Opts{})
+					if err := rr.RestoreBytes(b); err != nil {
+						run.Violation("C02:deferred-persist:restore-error", fmt.Sprintf("history %d cut %d: %v", h, pend.k, err), map[string]any{"log": descs(log[:k])})
+					} else {
+						seen := map[string]bool{}
+						for _, x := range dump.RowDiffs(pend.before.Fold(), normalize(dump.Of(rr.State())).Fold(), 400, nil) {
+							// differences that a prompt persist of the same handle point does not show are due
+							// to the snapshot not being point-in-time
+							key := "C02:deferred-persist:not-point-in-time:" + x.Key()
+							if seen[key] {
+								continue
+							}
+							seen[key] = true
+							run.Violation(key, fmt.Sprintf("history %d: snapshot taken at cut %d but persisted after %d further commands restores differently: table %s %s row: persisted-at-once=%s persisted-later=%s", h, pend.k, k-pend.k, x.Table, x.Kind, trunc(x.A, 300), trunc(x.B, 300)),
+								map[string]any{"log": descs(log[:k]), "cut": pend.k, "persisted_after": k, "diff": x})
+						}
+						run.Count("deferred-persist-cuts")
+					}
+					rr.Close()
+				}
+				pend = nil
 			}
 			if k%every != off && k != ln {
 				continue
@@ -129,9 +172,18 @@ func TestZZVerifC02(t *testing.T) {
 			core.Progress("C02", fmt.Sprintf("history %d cut %d", h, k))
 			run.Eval()
 			before := normalize(dump.Of(live.State()))
+			var mine *deferred
+			if pend == nil && k+4 <= ln {
+				if hd, err := live.SnapshotHandle(); err == nil {
+					mine = &deferred{snap: hd, k: k}
+				}
+			}
 			snap, err := live.SnapshotBytes()
 			if err != nil {
 				run.Violation("C02:snapshot-error", fmt.Sprintf("history %d cut %d: snapshot failed: %v", h, k, err), map[string]any{"log": descs(log[:k])})
+				if mine != nil {
+					mine.snap.Release()
+				}
 				continue
 			}
 			// taking a snapshot must not change the live state
@@ -142,9 +194,18 @@ func TestZZVerifC02(t *testing.T) {
 			if err := r.RestoreBytes(snap); err != nil {
 				run.Violation("C02:restore-error", fmt.Sprintf("history %d cut %d: restore failed: %v", h, k, err), map[string]any{"log": descs(log[:k])})
 				r.Close()
+				if mine != nil {
+					mine.snap.Release()
+				}
 				continue
 			}
 			after := normalize(dump.Of(r.State()))
+			if mine != nil {
+				// reference = what the SAME cut restores to when persisted at once: differences between the
+				// two are due to nothing but the delay (restore-time rebuilds are the same in both)
+				mine.before = after
+				pend = mine
+			}
 			nd := 0
 			for _, tn := range before.NonEmptyTables() {
 				run.Distinct("table-in-snapshot", tn)
@@ -240,6 +301,7 @@ func TestZZVerifC02(t *testing.T) {
 	run.FloorDistinct("table-in-snapshot", 25)
 	run.FloorDistinct("class", 60)
 	run.Floor("suffix_commands_compared", 2000)
+	run.Floor("deferred-persist-cuts", 50)
 	if run.Finish() == 1 {
 		t.Fail()
 	}
